@@ -71,6 +71,10 @@ pub struct ConnCase {
     pub buf: u32,
     pub max_conns: u32,
     pub propagate: bool,
+    /// the client does not wait for EndRequest before sending the next request (everything is
+    /// available at once); only used with handlers that leave the parser at a record boundary
+    #[serde(default)]
+    pub pipelined: bool,
 }
 
 /// Only noise kinds whose reply does not depend on the protocol phase (plus silent ones) are
@@ -219,6 +223,11 @@ pub fn build(c: &ConnCase) -> Built {
     }
     if recs.len() > tail_start {
         releases.push((offs[recs.len()], cond));
+    }
+    if c.pipelined {
+        for r in &mut releases {
+            r.1 = Cond::Now;
+        }
     }
     Built { recs, spans, offs, client, releases, need: need + 13, queries, kinds }
 }
@@ -695,7 +704,7 @@ pub fn conn_case(max_reqs: usize, allow_err: bool, wait_mgmt: BoxedStrategy<bool
         prop_oneof![Just(1u32), 1u32..1000],
         any::<bool>(),
     )
-        .prop_map(|(reqs, tail, read_script, write_script, vectored, buf, max_conns, propagate)| ConnCase { reqs, tail, read_script, write_script, vectored, buf, max_conns, propagate })
+        .prop_map(|(reqs, tail, read_script, write_script, vectored, buf, max_conns, propagate)| ConnCase { reqs, tail, read_script, write_script, vectored, buf, max_conns, propagate, pipelined: false })
         .boxed()
 }
 
